@@ -143,6 +143,10 @@ class C04(Check):
         "wall-clock verdicts: liveness_overdue and the two 0.5 s-poll probes (wakeup, wakeup_async: median >= 0.15 s) are evaluated only when the canary threads saw no "
         "stall (else counted as inconclusive); wakeup_resched is order-based (the harness waits 8 s for the rescheduled entry before any other event; two "
         "unanswered reschedules fail, inconclusive if a canary overslept >= 4 s); every other clause is about order and state, not time",
+        "not_rearmed is judged only at a helper's return (`dec`), never for the scheduler's skip path (round-4 follow-up: while a deactivation is in flight the skip "
+        "path's UpdateNextCheck fires no OnNextCheckChanged - signals are suppressed for inactive objects -, the idle key stays stale and the dying object is "
+        "legitimately skipped again; that produced one false alarm in a thorough run under load and the skip-path check was removed), and not while an activate / "
+        "deactivate operation on the checkable is in flight",
         "not_rearmed: a harness SetNextCheck-like operation (OpSetNext, the API action, the external commands; logged `ob setnext` .. `oe setnext`) between the earliest "
         "outstanding dispatch and the helper's return suspends the claim for that attempt (its write may be the last one); all other writers of next_check that run in "
         "the scenarios (ExecuteCheck, ProcessCheckResult for active and passive results, the scheduler's skip path, Checkable::Start) write values after their own clock; "
